@@ -115,6 +115,60 @@ theorem C08_deepcopy_disjoint (f : Nat) (H : Heaps) (t : Nat) (v v' : Val) (H' :
   obtain ⟨M, hv, iso, _, _, _⟩ := C08_deepcopy_iso f H t v v' H' hc
   exact iso_owned iso hv
 
+/-- **Every copy starts from an empty table: nothing survives from an earlier copy.**  `deepCopy` (a channel
+    read) and `spawnCopy` (a spawn) are functions of the heaps and the values alone — no table is carried from
+    one copy to the next — and with the empty table every object reachable from the result was allocated
+    during THIS copy: it did not exist before, whichever thread copies (a thread reading its own message
+    included), so a copy can never hand out an object made by an earlier copy. -/
+theorem C08_deepcopy_fresh (f : Nat) (H : Heaps) (t : Nat) (v v' : Val) (H' : Heaps)
+    (hc : deepCopy f H t v = some (v', H')) :
+    ∀ w' x, ReachV H' v' w' → ptr? w' = some x → lookup H x = none ∧ x.tid = t := by
+  obtain ⟨M, hm⟩ := deepCopy_unpack hc
+  obtain ⟨p, hv⟩ := deepCopyM_post H t f H [] v v' H' M hm
+  have iso := iso_of_post p
+  intro w' x hw' hx
+  obtain ⟨w, _, hmw⟩ := iso_onto iso hv w' hw'
+  cases hp : ptr? w with
+  | none =>
+    simp only [mapVal?, hp, Option.some.injEq] at hmw
+    rw [← hmw, hp] at hx; cases hx
+  | some a =>
+    simp only [mapVal?, hp] at hmw
+    obtain ⟨a', e1, e2, e3, _⟩ := p.fresh a w' hmw rfl
+    rw [hx] at e1; cases e1
+    exact ⟨lookup_none_of_ge H x (by rw [e2]; exact e3), e2⟩
+
+/-- the same for the captures of a spawn -/
+theorem C08_spawn_fresh (f : Nat) (H : Heaps) (t : Nat) (caps caps' : List Val) (H' : Heaps)
+    (hc : spawnCopy f H t caps = some (caps', H')) :
+    ∀ c' ∈ caps', ∀ x, ptr? c' = some x → lookup H x = none ∧ x.tid = t := by
+  obtain ⟨M, hm⟩ := spawnCopy_unpack hc
+  obtain ⟨p, hl⟩ := copyListM_post H t _ (fun H1 M1 w w' H2 M2 h => deepCopyM_post H t f H1 M1 w w' H2 M2 h)
+    caps H [] caps' H' M hm
+  intro c' hc' x hx
+  obtain ⟨c, _, hmc⟩ := mapList_mem M caps caps' hl c' hc'
+  cases hp : ptr? c with
+  | none =>
+    simp only [mapVal?, hp, Option.some.injEq] at hmc
+    rw [← hmc, hp] at hx; cases hx
+  | some a =>
+    simp only [mapVal?, hp] at hmc
+    obtain ⟨a', e1, e2, e3, _⟩ := p.fresh a c' hmc rfl
+    rw [hx] at e1; cases e1
+    exact ⟨lookup_none_of_ge H x (by rw [e2]; exact e3), e2⟩
+
+/-- thread 1 owns an array `a` and `b`, the copy of `a` it received from its own channel earlier -/
+def staleH : Heaps := fun t => if t = 1 then [.array [.int 1, .int 2], .array [.int 1, .int 2]] else []
+
+/-- **Why the table must be empty.**  Started with a table left over from an earlier copy (`a ↦ b`), the copy
+    of the capture `a` for the new thread 2 IS the spawner's object `b` — nothing is allocated, the task and the
+    spawner share an object.  With the empty table the capture gets a fresh object of thread 2. -/
+theorem C08_stale_table_counterexample :
+    deepCopyM 3 staleH staleH [(⟨1, 0⟩, .array ⟨1, 1⟩)] 2 (.array ⟨1, 0⟩) =
+      some (.array ⟨1, 1⟩, staleH, [(⟨1, 0⟩, .array ⟨1, 1⟩)]) ∧
+    ∃ H', deepCopy 3 staleH 2 (.array ⟨1, 0⟩) = some (.array ⟨2, 0⟩, H') ∧ lookup staleH ⟨2, 0⟩ = none :=
+  ⟨rfl, _, rfl, rfl⟩
+
 /-- **Channels are the exception**: the copy of a channel value is a new handle object in the new thread's
     heap that names the same queue. -/
 theorem C08_deepcopy_channel_shared (f : Nat) (H : Heaps) (t : Nat) (a : Addr) (q : Nat)
